@@ -261,6 +261,8 @@ func runNestedProgram(e *nestEnv, nOps int) {
 			e.opReattach()
 		case r < 88:
 			e.opCommitReload()
+		case r < 92:
+			e.opPop()
 		default:
 			e.opReadBack()
 		}
@@ -476,13 +478,15 @@ func (e *nestEnv) disposeStorable(s atree.Storable) {
 
 // deepRemove is the caller-side idiom for disposing of a value (cmd/smoke, Cadence): empty every
 // container it holds with PopIterate, recursively, and remove the slab a reference points to.
-func (e *nestEnv) deepRemove(s atree.Storable) {
-	v, err := s.StoredValue(e.rec)
+func (e *nestEnv) deepRemove(s atree.Storable) { e.deepRemoveIn(e.rec, s) }
+
+func (e *nestEnv) deepRemoveIn(st atree.SlabStorage, s atree.Storable) {
+	v, err := s.StoredValue(st)
 	if err != nil {
 		e.violation("C09", fmt.Sprintf("a storable handed out by PopIterate does not resolve: %v", err))
 		return
 	}
-	e.deepRemoveValue(v)
+	e.deepRemoveValueIn(st, v)
 	inner := s
 	for {
 		ws, ok := inner.(atree.WrapperStorable)
@@ -492,13 +496,15 @@ func (e *nestEnv) deepRemove(s atree.Storable) {
 		inner = ws.UnwrapAtreeStorable()
 	}
 	if id, ok := inner.(atree.SlabIDStorable); ok {
-		if err := e.rec.Remove(atree.SlabID(id)); err != nil {
+		if err := st.Remove(atree.SlabID(id)); err != nil {
 			e.violation("C09", fmt.Sprintf("removing referenced slab %s: %v", hx.IDStr(atree.SlabID(id)), err))
 		}
 	}
 }
 
-func (e *nestEnv) deepRemoveValue(v atree.Value) {
+func (e *nestEnv) deepRemoveValue(v atree.Value) { e.deepRemoveValueIn(e.rec, v) }
+
+func (e *nestEnv) deepRemoveValueIn(st atree.SlabStorage, v atree.Value) {
 	for {
 		sv, ok := v.(hx.SomeValue)
 		if !ok {
@@ -509,9 +515,9 @@ func (e *nestEnv) deepRemoveValue(v atree.Value) {
 	var err error
 	switch x := v.(type) {
 	case *atree.Array:
-		err = x.PopIterate(func(s atree.Storable) { e.deepRemove(s) })
+		err = x.PopIterate(func(s atree.Storable) { e.deepRemoveIn(st, s) })
 	case *atree.OrderedMap:
-		err = x.PopIterate(func(k, v atree.Storable) { e.deepRemove(k); e.deepRemove(v) })
+		err = x.PopIterate(func(k, v atree.Storable) { e.deepRemoveIn(st, k); e.deepRemoveIn(st, v) })
 	}
 	if err != nil {
 		e.violation("C09", fmt.Sprintf("PopIterate during deep removal failed: %v", err))
@@ -549,6 +555,127 @@ func (e *nestEnv) epilogueDeepRemove() {
 		e.violation("C09", fmt.Sprintf("after deep removal of every container (%d top-level, %d created) the storage still holds %d slabs: %s",
 			len(tops), len(e.nodes), len(left), strings.Join(left, " ")))
 	}
+}
+
+// kill marks every container nested in n (not n itself) as disposed of.
+func (e *nestEnv) killDescendants(n *node) {
+	for _, x := range e.nodes {
+		if x == n || !x.live {
+			continue
+		}
+		for y := x.parent; y != nil; y = y.parent {
+			if y == n {
+				x.live = false
+				break
+			}
+		}
+	}
+	for _, x := range e.nodes {
+		if !x.live {
+			x.parent = nil
+		}
+	}
+}
+
+// opPop empties a container through its own handle with PopIterate - the outermost container, a
+// container nested at any depth (inlined or standalone), or a detached one - and disposes of
+// everything handed to the callback with the deep-removal idiom.  C10: the parent must stay valid
+// and show the emptied child; C01/C02: the emptied container is usable again; C11: emptying a
+// detached container does not touch its former parent.
+func (e *nestEnv) opPop() {
+	var n *node
+	detached := len(e.detached) > 0 && e.rng.Intn(4) == 0
+	if detached {
+		n = e.detached[e.rng.Intn(len(e.detached))]
+	} else {
+		nonEmpty := func(x *node) bool { return e.attached(x) && len(x.elems)+len(x.kv) > 0 }
+		if e.rng.Intn(4) == 0 {
+			nonEmpty = func(x *node) bool { return e.attached(x) }
+		}
+		// popping the outermost container ends most of the program's structure: keep it rare
+		n = e.pickContainer(func(x *node) bool { return nonEmpty(x) && (x != e.root || e.rng.Intn(6) == 0) })
+	}
+	if n == nil {
+		return
+	}
+	w := e.w
+	before := ""
+	if detached {
+		before = e.dumpRoot()
+	}
+	var got []atree.Storable
+	var obs []string
+	var err error
+	if n.kind == 'a' {
+		w.L("OP apop h=%d", n.h)
+		err = n.arr.PopIterate(func(s atree.Storable) {
+			got = append(got, s)
+			obs = append(obs, renderStorable(s))
+		})
+	} else {
+		w.L("OP mpop h=%d", n.h)
+		err = n.mp.PopIterate(func(k, v atree.Storable) {
+			got = append(got, k, v)
+			obs = append(obs, renderStorable(k)+","+renderStorable(v))
+		})
+	}
+	if err != nil {
+		w.L("OBS err:%s", hx.ErrKind(err))
+		e.emitEffects()
+		e.violation("C10", fmt.Sprintf("PopIterate through the handle of container %d failed: %v", n.h, err))
+		return
+	}
+	w.L("OBS ok:%s", strings.Join(obs, "|"))
+	e.emitEffects()
+	e.st.Hit(fmt.Sprintf("pop-%c-depth%d-detached=%v", n.kind, e.depth(n), detached))
+	// the caller disposes of everything it was handed (not through the recording storage: the
+	// effects of the disposal are the caller's, not the operation's)
+	for _, s := range got {
+		if id, ok := s.(atree.SlabIDStorable); ok {
+			if _, isCont := e.nodeByID(atree.SlabID(id)); !isCont {
+				w.L("DSP id=%s", hx.IDStr(atree.SlabID(id)))
+			}
+		}
+		e.deepRemoveIn(e.ps, s)
+	}
+	n.elems = nil
+	if n.kind == 'm' {
+		n.kv = map[hx.TV]sval{}
+	}
+	e.killDescendants(n)
+	if detached {
+		if after := e.dumpRoot(); after != before {
+			e.violation("C11", fmt.Sprintf("PopIterate through the handle of detached container %d changed the former parent", n.h))
+		}
+		return
+	}
+	// C10: visible through the parent, every ancestor structurally valid
+	nv := len(e.st.Violations)
+	e.opReadBack()
+	e.verifyRoot(fmt.Sprintf("after PopIterate through the handle of container %d", n.h))
+	if len(e.st.Violations) > nv {
+		return
+	}
+	// the emptied container must be usable again (its bookkeeping about former children is gone)
+	// (C01/C02: in-range requests on the emptied container never fail)
+	if e.rng.Intn(2) == 0 {
+		prop := "C01"
+		if n.kind == 'm' {
+			prop = "C02"
+		}
+		for i := 1 + e.rng.Intn(3); i > 0; i-- {
+			e.mutatePlain(n, prop)
+		}
+	}
+}
+
+func (e *nestEnv) nodeByID(id atree.SlabID) (*node, bool) {
+	for _, x := range e.nodes {
+		if x.vidSlabID() == id {
+			return x, true
+		}
+	}
+	return nil, false
 }
 
 func (e *nestEnv) opMutate(detached bool) {
